@@ -29,6 +29,7 @@ structure Ctx where
   repMsg : Option Msg := none      -- the stored reply
   sendMsg : Option Bytes := none   -- accepted, not yet transmitted for the first time
   sendFor : Nat := 0               -- request id of the Send call that set sendMsg
+  sendAbort : Bool := false        -- the pending `sendMsg` was abandoned by cancel (c.sendAbort == c.sendMsg)
   lastPipe : Option Nat := none
   queued : Bool := false
   receiveWait : Bool := false
@@ -96,37 +97,46 @@ def cancelSend (s : State) (c : Nat) : State :=
 /-- re-evaluation of the wait loops of the calls blocked on context c (after a cond.Broadcast):
     Send waits while `sendMsg` is still its own message, its deadline has not expired, the context is open and
     (failNoPeers ⇒ a pipe exists); Recv waits while the request id is still the one it began with and no reply is stored -/
+def wakeSends (s : State) (c : Nat) (x : Ctx) : State × List (Nat × Ev) :=
+  let nopeers := x.failNoPeers && s.pipes.isEmpty
+  let mine (p : Parked) : Bool := x.sendMsg.isSome && x.sendFor == p.rid
+  let leaving := s.parkedSend.filter (fun p => p.ctx == c && (!(mine p) || p.expired || x.closed || nopeers || x.sendAbort))
+  let sendEvs := leaving.map (fun p =>
+    if mine p then (p.call, Ev.retErr p.call (if x.closed then "closed" else if nopeers then "nopeers" else if p.expired then "sendtimeout" else "canceled"))
+    else (p.call, Ev.retErr p.call "ok"))
+  let s1 := { s with parkedSend := s.parkedSend.filter (fun p => !(leaving.any (fun q => q.call == p.call))) }
+  -- a Send that gives up clears what it had queued (and with it the context's request)
+  let s2 := if leaving.any mine then
+      setCtx { (cancelSend s1 c) with ctxByID := s1.ctxByID.filter (fun e => e.2 != c) } c (fun y => { y with sendMsg := none, reqID := 0, repMsg := none, sendAbort := false })
+    else s1
+  (s2, sendEvs)
+
+def wakeRecv (s2 : State) (c : Nat) (nopeers : Bool) (sendEvs : List (Nat × Ev)) : State × List (Nat × Ev) :=
+  match s2.parkedRecv.find? (fun p => p.ctx == c) with
+  | none => (s2, sendEvs)
+  | some pr =>
+    match getCtx s2 c with
+    | none => (s2, sendEvs)
+    | some y =>
+      if y.reqID == pr.rid && y.repMsg.isNone then (s2, sendEvs) else
+      let s3 := { s2 with parkedRecv := s2.parkedRecv.filter (fun p => p.call != pr.call) }
+      if y.reqID != pr.rid then
+        -- the awaited request was abandoned (cancelled, timed out or replaced): whatever is there now belongs to a newer request
+        let why := if y.closed then "closed" else if pr.expired then "recvtimeout" else if nopeers then "nopeers" else "canceled"
+        (setCtx s3 c (fun z => { z with receiveWait := false }), sendEvs ++ [(pr.call, Ev.retErr pr.call why)])
+      else
+      match y.repMsg with
+      | some m =>
+        (setCtx { s3 with delivered := s3.delivered ++ [(c, beDec m.1, enc y.reqID)], ctxByID := s3.ctxByID.filter (fun e => e.2 != c) } c
+            (fun z => { z with reqID := 0, repMsg := none, receiveWait := false }), sendEvs ++ [(pr.call, Ev.retMsg pr.call m.1 m.2)])
+      | none => (s3, sendEvs)
+
 def wake (s : State) (c : Nat) : State × List (Nat × Ev) :=
   match getCtx s c with
   | none => (s, [])
   | some x =>
-    let nopeers := x.failNoPeers && s.pipes.isEmpty
-    let mine (p : Parked) : Bool := x.sendMsg.isSome && x.sendFor == p.rid
-    let leaving := s.parkedSend.filter (fun p => p.ctx == c && (!(mine p) || p.expired || x.closed || nopeers))
-    let sendEvs := leaving.map (fun p =>
-      if mine p then (p.call, Ev.retErr p.call (if x.closed then "closed" else if nopeers then "nopeers" else "sendtimeout"))
-      else (p.call, Ev.retErr p.call "ok"))
-    let s1 := { s with parkedSend := s.parkedSend.filter (fun p => !(leaving.any (fun q => q.call == p.call))) }
-    -- a Send that gives up clears what it had queued
-    let s2 := if leaving.any mine then setCtx (cancelSend s1 c) c (fun y => { y with sendMsg := none, reqID := 0 }) else s1
-    match s2.parkedRecv.find? (fun p => p.ctx == c) with
-    | none => (s2, sendEvs)
-    | some pr =>
-      match getCtx s2 c with
-      | none => (s2, sendEvs)
-      | some y =>
-        if y.reqID == pr.rid && y.repMsg.isNone then (s2, sendEvs) else
-        let s3 := { s2 with parkedRecv := s2.parkedRecv.filter (fun p => p.call != pr.call) }
-        if y.reqID != pr.rid then
-          -- the awaited request was abandoned (cancelled, timed out or replaced): whatever is there now belongs to a newer request
-          let why := if y.closed then "closed" else if pr.expired then "recvtimeout" else if nopeers then "nopeers" else "canceled"
-          (setCtx s3 c (fun z => { z with receiveWait := false }), sendEvs ++ [(pr.call, Ev.retErr pr.call why)])
-        else
-        match y.repMsg with
-        | some m =>
-          (setCtx { s3 with delivered := s3.delivered ++ [(c, beDec m.1, enc y.reqID)] } c
-              (fun z => { z with reqID := 0, repMsg := none, receiveWait := false }), sendEvs ++ [(pr.call, Ev.retMsg pr.call m.1 m.2)])
-        | none => (s3, sendEvs)
+    let r := wakeSends s c x
+    wakeRecv r.1 c (x.failNoPeers && s.pipes.isEmpty) r.2
 
 /-- context.cancel -/
 def cancel (s : State) (c : Nat) : State :=
@@ -134,8 +144,22 @@ def cancel (s : State) (c : Nat) : State :=
   match getCtx s1 c with
   | none => s1
   | some x =>
-    setCtx { s1 with ctxByID := s1.ctxByID.filter (fun e => !(e.1 == x.reqID && x.reqID != 0)) } c
-      (fun y => { y with reqID := 0, repMsg := none, reqMsg := none, timer := none })
+    setCtx { s1 with ctxByID := s1.ctxByID.filter (fun e => !(e.1 == x.reqID && x.reqID != 0) && e.2 != c) } c
+      (fun y => { y with reqID := 0, repMsg := none, reqMsg := none, timer := none, sendAbort := y.sendMsg.isSome })
+
+/-- one pairing of socket.send: context c (head of the send queue) is handed to pipe p (head of the ready queue) -/
+def pumpStep (arm : Nat × Nat) (s : State) (c p : Nat) (sq rq : List Nat) (x : Ctx) (pp : Pipe) : State × List (Nat × Ev) :=
+  let body := (x.sendMsg.orElse (fun _ => x.reqMsg)).getD []
+  let first := x.sendMsg.isSome
+  let s1 : State := { s with sendQ := sq, readyQ := rq, ctxByID := if first then s.ctxByID.filter (fun e => e.2 != c) ++ [(x.reqID, c)] else s.ctxByID, txlog := s.txlog ++ [(p, x.reqID, body)] }
+  let s2 := setCtx s1 c (fun y => { y with queued := false, reqMsg := some body, sendMsg := none, lastPipe := some p, timer := if y.resendTime > 0 then some { id := y.reqID, tmin := arm.1, tmax := arm.2, period := y.resendTime } else y.timer })
+  -- the Send call that was waiting for this first transmission returns
+  let r3 : State × List (Nat × Ev) := if first then wake s2 c else (s2, [])
+  if pp.hold then
+    (setPipe r3.1 p (fun q => { q with inflight := some (idBytes x.reqID, body) }), r3.2)
+  else
+    -- the pipe's send returns at once and the pipe is ready again
+    ({ r3.1 with readyQ := r3.1.readyQ ++ [p] }, r3.2 ++ [(p, Ev.tx p (idBytes x.reqID) body)])
 
 /-- socket.send: pair waiting contexts with ready pipes -/
 def pump : Nat → Nat × Nat → State → State × List (Nat × Ev)
@@ -145,23 +169,9 @@ def pump : Nat → Nat × Nat → State → State × List (Nat × Ev)
     | c :: sq, p :: rq =>
       match getCtx s c, getPipe s p with
       | some x, some pp =>
-        let body := (x.sendMsg.orElse (fun _ => x.reqMsg)).getD []
-        let first := x.sendMsg.isSome
-        let s1 := { s with sendQ := sq, readyQ := rq,
-                           ctxByID := if first then s.ctxByID ++ [(x.reqID, c)] else s.ctxByID,
-                           txlog := s.txlog ++ [(p, x.reqID, body)] }
-        let s2 := setCtx s1 c (fun y => { y with queued := false, reqMsg := some body, sendMsg := none, lastPipe := some p, timer := if y.resendTime > 0 then some { id := y.reqID, tmin := arm.1, tmax := arm.2, period := y.resendTime } else y.timer })
-        -- the Send call that was waiting for this first transmission returns
-        let (s3, evs1) := if first then wake s2 c else (s2, [])
-        if pp.hold then
-          let s4 := setPipe s3 p (fun q => { q with inflight := some (idBytes x.reqID, body) })
-          let (s5, evs2) := pump fuel arm s4
-          (s5, evs1 ++ evs2)
-        else
-          -- the pipe's send returns at once and the pipe is ready again
-          let s4 := { s3 with readyQ := s3.readyQ ++ [p] }
-          let (s5, evs2) := pump fuel arm s4
-          (s5, evs1 ++ [(p, Ev.tx p (idBytes x.reqID) body)] ++ evs2)
+        let r := pumpStep arm s c p sq rq x pp
+        let r2 := pump fuel arm r.1
+        (r2.1, r.2 ++ r2.2)
       | _, _ => ({ s with sendQ := sq }, [])
     | _, _ => (s, [])
 
@@ -175,6 +185,30 @@ def resend (s : State) (arm : Nat × Nat) (c id : Nat) : State × List (Nat × E
     if x.reqID == id && x.reqMsg.isSome && !x.queued then
       pump (fuelOf s + 2) arm (setCtx { s with sendQ := s.sendQ ++ [c] } c (fun y => { y with queued := true }))
     else (s, [])
+
+def perms : List Nat → List (List Nat)
+  | [] => [[]]
+  | l => (l.flatMap (fun x => (perms (l.erase x)).map (fun p => x :: p))).take 24
+termination_by l => l.length
+decreasing_by
+  simp_wf
+  rename_i h
+  have := List.length_erase_of_mem h
+  have hpos : 0 < l.length := List.length_pos_of_mem h
+  omega
+
+/-- the pipes that completed a transmission during the current operation -/
+def txPipes (evs : List (Nat × Ev)) : List Nat :=
+  evs.filterMap (fun e => match e.2 with | Ev.tx p _ _ => some p | _ => none)
+
+/-- every pipe that transmitted re-enters the ready queue from a goroutine of its own (`pipe.sendCtx`): when several
+    did so during one operation, they are at the tail of the queue in the order in which those goroutines got the lock -/
+def readyVariants (st : State × List (Nat × Ev)) : List (State × List (Nat × Ev)) :=
+  let tp := txPipes st.2
+  let fixed := st.1.readyQ.filter (fun p => !tp.contains p)
+  let moving := st.1.readyQ.filter (fun p => tp.contains p)
+  if moving.length < 2 || st.1.readyQ != fixed ++ moving then [st] else
+  (perms moving).map (fun m => ({ st.1 with readyQ := fixed ++ m }, st.2))
 
 /-- one round of retry timers at time `now`: a timer that fires re-sends (which re-arms it, no earlier than its own firing time) -/
 def timerRound (now : Nat) (acc0 : List (State × List (Nat × Ev))) (ctxIds : List Nat) : List (State × List (Nat × Ev)) :=
@@ -192,35 +226,53 @@ def timerRound (now : Nat) (acc0 : List (State × List (Nat × Ev))) (ctxIds : L
             let s1 := setCtx st.1 c.id (fun y => { y with timer := none })
             let r := resend s1 (t.tmin + t.period, now) c.id t.id
             (r.1, st.2 ++ r.2)
-          if mustFire then [fired] else if mayFire then [st, fired] else [st])) acc0
+          if mustFire then readyVariants fired else if mayFire then st :: readyVariants fired else [st])) acc0
 
-/-- send / receive deadlines: when one fires and its call is still waiting for the same thing, the call is marked
-    expired and the context is cancelled (which wakes it) -/
+/-- a send / receive deadline fires: if its call is still waiting for the same thing, the call is marked expired and the
+    context is cancelled (which wakes it) -/
+def deadlineFired (st : State × List (Nat × Ev)) (isRecv : Bool) (p : Parked) : State × List (Nat × Ev) :=
+  let s := st.1
+  match getCtx s p.ctx with
+  | none => st
+  | some x =>
+    let still := if isRecv then x.reqID == p.rid else (x.sendMsg.isSome && x.sendFor == p.rid)
+    let mark (q : Parked) : Parked := if q.call == p.call then { q with expired := still, deadline := none } else q
+    let s1 : State := if isRecv then { s with parkedRecv := s.parkedRecv.map mark } else { s with parkedSend := s.parkedSend.map mark }
+    if still then
+      let r := wake (cancel s1 p.ctx) p.ctx
+      (r.1, st.2 ++ r.2)
+    else (s1, st.2)
+
+/-- the Send deadlines of context c that are due at `now` fire as well: their callbacks may already be waiting for the
+    socket lock when a Recv deadline's callback cancels the request (`Timer.Stop` comes too late for them) -/
+def expireSends (now : Nat) (s : State) (c : Nat) : State :=
+  { s with parkedSend := s.parkedSend.map (fun q =>
+      if q.ctx == c && (match q.deadline with | some t => decide (t.tmin + t.period ≤ now) | none => false)
+      then { q with expired := true, deadline := none } else q) }
+
+def recvStill (s : State) (p : Parked) : Bool :=
+  match getCtx s p.ctx with
+  | some x => x.reqID == p.rid
+  | none => false
+
+def deadlineFire (now : Nat) (st : State × List (Nat × Ev)) (isRecv : Bool) (p : Parked) (t : Timer) : List (State × List (Nat × Ev)) :=
+  let mayFire := decide (t.tmin + t.period ≤ now)
+  let mustFire := decide (t.tmax + t.period + slack ≤ now)
+  let fired := if isRecv && recvStill st.1 p && expireSends now st.1 p.ctx != st.1
+    then [deadlineFired st isRecv p, deadlineFired (expireSends now st.1 p.ctx, st.2) isRecv p]
+    else [deadlineFired st isRecv p]
+  if mustFire then fired else if mayFire then st :: fired else [st]
+
+/-- send / receive deadlines at time `now` -/
 def deadlineRound (now : Nat) (acc0 : List (State × List (Nat × Ev))) (calls : List Nat) : List (State × List (Nat × Ev)) :=
   calls.foldl (fun (acc : List (State × List (Nat × Ev))) call =>
     acc.flatMap (fun (st : State × List (Nat × Ev)) =>
-      let s := st.1
-      let fire (isRecv : Bool) (p : Parked) (t : Timer) : List (State × List (Nat × Ev)) :=
-        let mayFire := decide (t.tmin + t.period ≤ now)
-        let mustFire := decide (t.tmax + t.period + slack ≤ now)
-        let fired : State × List (Nat × Ev) :=
-          match getCtx s p.ctx with
-          | none => st
-          | some x =>
-            let still := if isRecv then x.reqID == p.rid else (x.sendMsg.isSome && x.sendFor == p.rid)
-            let mark (q : Parked) : Parked := if q.call == p.call then { q with expired := still, deadline := none } else q
-            let s1 := if isRecv then { s with parkedRecv := s.parkedRecv.map mark } else { s with parkedSend := s.parkedSend.map mark }
-            if still then
-              let r := wake (cancel s1 p.ctx) p.ctx
-              (r.1, st.2 ++ r.2)
-            else (s1, st.2)
-        if mustFire then [fired] else if mayFire then [st, fired] else [st]
-      match s.parkedRecv.find? (fun p => p.call == call), s.parkedSend.find? (fun p => p.call == call) with
+      match st.1.parkedRecv.find? (fun p => p.call == call), st.1.parkedSend.find? (fun p => p.call == call) with
       | some p, _ => match p.deadline with
-        | some t => fire true p t
+        | some t => deadlineFire now st true p t
         | none => [st]
       | none, some p => match p.deadline with
-        | some t => fire false p t
+        | some t => deadlineFire now st false p t
         | none => [st]
       | none, none => [st])) acc0
 
@@ -235,7 +287,7 @@ def timerOutcomes (s : State) (now : Nat) : List (State × List (Nat × Ev)) :=
   let r1 := dedup (timerRound now r0 ids)
   let r2 := dedup (timerRound now r1 ids)
   let r3 := dedup (timerRound now r2 ids)
-  (dedup (timerRound now r3 ids)).take 48
+  (dedup (timerRound now r3 ids)).take 96
 
 def opTime (op : List String) : Nat :=
   match op.getLast? with
@@ -247,44 +299,45 @@ def stripTime (op : List String) : List String :=
   | some t => if t.startsWith "@" then op.dropLast else op
   | none => op
 
-def perms : List Nat → List (List Nat)
-  | [] => [[]]
-  | l => (l.flatMap (fun x => (perms (l.erase x)).map (fun p => x :: p))).take 24
-termination_by l => l.length
-decreasing_by
-  simp_wf
-  rename_i h
-  have := List.length_erase_of_mem h
-  have hpos : 0 < l.length := List.length_pos_of_mem h
-  omega
+/-- removal of pipe p, synchronous part, for one context: fail-no-peers cancels; a request last sent on p is cancelled
+    (retries disabled) or noted for re-sending -/
+def dropOne (p : Nat) (acc : State × List (Nat × Ev) × List (Nat × Nat)) (c0 : Ctx) : State × List (Nat × Ev) × List (Nat × Nat) :=
+  match getCtx acc.1 c0.id with
+  | none => acc
+  | some c =>
+    if c.failNoPeers && acc.1.pipes.isEmpty then
+      let r := wake (cancel acc.1 c.id) c.id
+      (r.1, acc.2.1 ++ r.2, acc.2.2)
+    else if c.lastPipe == some p && c.reqMsg.isSome then
+      let s2 := setCtx acc.1 c.id (fun y => { y with lastPipe := none })
+      if c.resendTime == 0 then
+        let r := wake (cancel s2 c.id) c.id
+        (r.1, acc.2.1 ++ r.2, acc.2.2)
+      else (cancelSend s2 c.id, acc.2.1, acc.2.2 ++ [(c.id, c.reqID)])
+    else acc
+
+/-- the re-sends of one order -/
+def dropResends (arm : Nat × Nat) (todo : List (Nat × Nat)) (start : State × List (Nat × Ev)) (order : List Nat) : State × List (Nat × Ev) :=
+  order.foldl (fun (acc : State × List (Nat × Ev)) cid =>
+    match todo.find? (fun t => t.1 == cid) with
+    | none => acc
+    | some t =>
+      let r := resend acc.1 arm cid t.2
+      (r.1, acc.2 ++ r.2)) start
 
 /-- remove a pipe: requests last sent on it are re-sent at once (or cancelled when retries are disabled);
     the re-sends are started concurrently, so they may queue in any order -/
 def dropPipe (s : State) (arm : Nat × Nat) (p : Nat) : List (State × List (Nat × Ev)) :=
   let s1 := { s with pipes := s.pipes.filter (fun q => q.id != p), readyQ := s.readyQ.filter (· != p) }
-  -- first the synchronous part (cancellations), collecting the contexts whose request must be re-sent
-  let r := s1.ctxs.foldl (fun (acc : State × List (Nat × Ev) × List (Nat × Nat)) c0 =>
-    match getCtx acc.1 c0.id with
-    | none => acc
-    | some c =>
-      if c.failNoPeers && acc.1.pipes.isEmpty then
-        let (s2, evs) := wake (cancel acc.1 c.id) c.id
-        (s2, acc.2.1 ++ evs, acc.2.2)
-      else if c.lastPipe == some p && c.reqMsg.isSome then
-        let s2 := setCtx acc.1 c.id (fun y => { y with lastPipe := none })
-        if c.resendTime == 0 then
-          let (s3, evs) := wake (cancel s2 c.id) c.id
-          (s3, acc.2.1 ++ evs, acc.2.2)
-        else (cancelSend s2 c.id, acc.2.1, acc.2.2 ++ [(c.id, c.reqID)])
-      else acc) (s1, [], [])
-  let todo := r.2.2
-  (perms (todo.map (·.1))).map (fun order =>
-    order.foldl (fun (acc : State × List (Nat × Ev)) cid =>
-      match todo.find? (fun t => t.1 == cid) with
-      | none => acc
-      | some (_, id) =>
-        let (s3, evs) := resend acc.1 arm cid id
-        (s3, acc.2 ++ evs)) (r.1, r.2.1))
+  let r := s1.ctxs.foldl (dropOne p) (s1, [], [])
+  (perms (r.2.2.map (·.1))).flatMap (fun order => readyVariants (dropResends arm r.2.2 (r.1, r.2.1) order))
+
+/-- Close of one context as part of socket close -/
+def closeOne (acc : State × List (Nat × Ev)) (c : Ctx) : State × List (Nat × Ev) :=
+  if c.closed then acc else
+  let s1 := cancel (setCtx acc.1 c.id (fun y => { y with closed := true })) c.id
+  let r := wake s1 c.id
+  (r.1, acc.2 ++ r.2)
 
 def core (s : State) (now : Nat) (op : List String) : List (State × List Ev × List (Nat × Ev)) :=
   match op with
@@ -321,7 +374,7 @@ def core (s : State) (now : Nat) (op : List String) : List (State × List Ev × 
       if c.failNoPeers && s.pipes.isEmpty then [(s0, [], [(call, Ev.retErr call "nopeers")])] else
       -- abandon whatever was outstanding on this context
       let s1 := cancel s0 c.id
-      let s2 := setCtx { s1 with sendQ := s1.sendQ ++ [c.id] } c.id (fun y => { y with reqID := n, queued := true, sendMsg := some (bytesOf b), sendFor := n })
+      let s2 := setCtx { s1 with sendQ := s1.sendQ ++ [c.id] } c.id (fun y => { y with reqID := n, queued := true, sendMsg := some (bytesOf b), sendFor := n, sendAbort := false })
       -- earlier calls blocked on this context wake up: a Recv fails with "canceled", an older Send returns
       let (s3, evs0) := wake s2 c.id
       let (s4, evs1) := pump (fuelOf s3) (s.tprev, now) { s3 with parkedSend := s3.parkedSend ++ [{ call := call, ctx := c.id, rid := n, deadline := if c.sendExpire > 0 && !c.bestEffort then some { id := n, tmin := s.tprev, tmax := now, period := c.sendExpire } else none }] }
@@ -361,6 +414,7 @@ def core (s : State) (now : Nat) (op : List String) : List (State × List Ev × 
     (dropPipe s (s.tprev, now) (natOf p)).map (fun r => (r.1, [], (natOf p, Ev.closed (natOf p)) :: r.2))
   | ["openctx", id] =>
     if s.closed then [(s, [Ev.res "closed"], [])] else
+    if (getCtx s (natOf id)).isSome then [] else     -- context ids are never reused
     match getCtx s 0 with
     | none => []
     | some d => [({ s with ctxs := s.ctxs ++ [{ id := natOf id, bestEffort := d.bestEffort, failNoPeers := d.failNoPeers, resendTime := d.resendTime, sendExpire := d.sendExpire, recvExpire := d.recvExpire }] }, [Ev.res "ok"], [])]
@@ -375,11 +429,7 @@ def core (s : State) (now : Nat) (op : List String) : List (State × List Ev × 
   | ["sleep", _] => [(s, [], [])]
   | ["close"] =>
     if s.closed then [(s, [Ev.res "closed"], [])] else
-    let r := s.ctxs.foldl (fun (acc : State × List (Nat × Ev)) c =>
-      if c.closed then acc else
-      let s1 := cancel (setCtx acc.1 c.id (fun y => { y with closed := true })) c.id
-      let (s2, evs) := wake s1 c.id
-      (s2, acc.2 ++ evs)) ({ s with closed := true }, [])
+    let r := s.ctxs.foldl closeOne ({ s with closed := true }, [])
     [(r.1, [Ev.res "ok"], r.2)]
   | _ => []
 
